@@ -110,6 +110,17 @@ func init() {
 	for _, p := range []string{`-$.n`, `$.last == $.n`, `$ ? (3000 == @.n)`, `$.n like_regex "x"`, `$ ? (@.n == 2099).last`, `+$.n.size()`} {
 		c20Pool = append(c20Pool, struct{ p, d string }{p, huge})
 	}
+	// ... and a subscript range over them with nothing after it, alone and as an
+	// operand: the elements are handed over without a step in between
+	for _, p := range []string{`$.n[0 to last]`, `$.n[1 to 2098]`, `strict $.n[0 to last]`, `$.last == $.n[0 to last]`, `-$.n[0 to last]`, `exists($.n[0 to 2000])`, `$ ? (exists(@.n[5 to last]))`, `$.n[0 to last, 0 to last]`} {
+		c20Pool = append(c20Pool, struct{ p, d string }{p, huge})
+	}
+	// a string of 70000 characters under like_regex, the match being the last
+	// thing evaluated: a context that is done by then is not a truth value
+	long := fmt.Sprintf(`{"s":"%sneedle","t":["%s","x"]}`, strings.Repeat("ab", 35000), strings.Repeat("c", 66000))
+	for _, p := range []string{`$.s like_regex "needle$"`, `$ ? (@.s like_regex "needle")`, `!($.s like_regex "^b")`, `$.s ? (@ like_regex "a+b")`, `$.t[*] ? (@ like_regex "^c+$")`, `($.s like_regex "zz") is unknown`, `$.s like_regex "NEEDLE" flag "i"`, `exists($.t[*] ? (@ like_regex "x"))`} {
+		c20Pool = append(c20Pool, struct{ p, d string }{p, long})
+	}
 	for _, p := range []string{`$.a[*] == $.b[*]`, `$ ? (@.a[*] == @.b[*])`, `($.a[*] > $.b[*]) is unknown`, `strict $.a[*] == $.b[*]`, `$.a[*] == $.b[*] || $.a[0] == 0`,
 		`$.t[*].time() < $.z.time_tz()`, `$.a[*] ? (@ == $.b[*])`} {
 		c20Pool = append(c20Pool, struct{ p, d string }{p, big})
